@@ -413,6 +413,12 @@ func Random(id int, rng *rand.Rand, o Opts) *Prog {
 		add(Decl{K: "named", Name: "Things", Under: &mt})
 		unionLeafs = []TE{Ref("", "Shape"), Ref("", "Thing"), Ref("", "Shapes"), Ref("", "Things")}
 		g.leafs = append(g.leafs, Ref("", "Circle"), Ref("", "Rect"))
+		if o.TagOptions {
+			// a struct with a union field (so that gounions wraps it) whose siblings carry json tag options
+			add(Decl{K: "struct", Name: "WithOpts", Fields: []Field{{Name: "Sh", Type: Ref("", "Shape")},
+				{Name: "Count", Type: Basic("int"), Tag: `json:"count,string"`}, {Name: "Tags", Type: Slice(Basic("string")), Tag: `json:"tags,omitempty"`},
+				{Name: "Note", Type: Basic("string"), Tag: `json:",omitempty"`}, {Name: "Opt", Type: Ref("", "Thing"), Tag: `json:"opt,omitempty"`}}})
+		}
 		if !o.NoMemberFirst {
 			// members used directly BEFORE the unions they belong to, inside one value
 			add(Decl{K: "struct", Name: "MemberFirst", Fields: []Field{{Name: "First", Type: Ref("", "Circle")}, {Name: "Both", Type: Ref("", "Rect")}, {Name: "Then", Type: Ref("", "Shape")}, {Name: "Last", Type: Ref("", "Thing")}}})
